@@ -378,11 +378,11 @@ pub fn worker_main(args: &[String]) -> i32 {
     start_watchdog();
     let mut handle = |run: &IoRun, stats: &mut Stats, violations: &mut BTreeMap<String, Value>, out: &mut std::io::Stdout| {
         // announced first: if this process dies or gets stuck inside the run, the driver knows which
-        let _ = writeln!(out, "{{\"begin\":{}}}", run.index);
+        let _ = writeln!(out, "\n{{\"begin\":{}}}", run.index);
         beat(run.index);
         let (reports, h) = exec_run(&ctx, run, stats);
         beat(u64::MAX);
-        let _ = writeln!(out, "{}", run_hash_line(run.index, h));
+        let _ = writeln!(out, "\n{}", run_hash_line(run.index, h));
         if let Some(v) = reports.iter().find_map(|r| r.violation.clone()) {
             let class = v.class();
             stats.bump(&format!("violation:{}", class), 1);
@@ -428,16 +428,16 @@ pub fn worker_main(args: &[String]) -> i32 {
         }
         let jj = start + j * stride;
         let run = super::conc::gen_conc_run(seed, jj);
-        let _ = writeln!(out, "{{\"begin\":{}}}", run.index);
+        let _ = writeln!(out, "\n{{\"begin\":{}}}", run.index);
         let rep = super::conc::exec_conc(&ctx, &run, &mut stats);
         if rep.hung {
-            let _ = writeln!(out, "{{\"hang\":{}}}", run.index);
+            let _ = writeln!(out, "\n{{\"hang\":{}}}", run.index);
             stats.bump("note:conc_run_hung", 1);
-            let _ = writeln!(out, "{}", json!({"stats": stats}));
+            let _ = writeln!(out, "\n{}", json!({"stats": stats}));
             let _ = out.flush();
             std::process::exit(3);
         }
-        let _ = writeln!(out, "{}", run_hash_line(run.index, rep.hash));
+        let _ = writeln!(out, "\n{}", run_hash_line(run.index, rep.hash));
         if let Some(v) = rep.violation {
             let class = format!("conc:{}", v.class());
             stats.bump(&format!("violation:{}", class), 1);
@@ -451,9 +451,9 @@ pub fn worker_main(args: &[String]) -> i32 {
         stats.bump("note:worker_stopped_by_time_cap", 1);
     }
     for (_, v) in violations {
-        let _ = writeln!(out, "{}", json!({"found": v}));
+        let _ = writeln!(out, "\n{}", json!({"found": v}));
     }
-    let _ = writeln!(out, "{}", json!({"stats": stats}));
+    let _ = writeln!(out, "\n{}", json!({"stats": stats}));
     let _ = std::fs::remove_dir_all(&ctx.scratch);
     0
 }
@@ -536,11 +536,11 @@ pub fn exec_main(args: &[String]) -> i32 {
         let mut stats = Stats::default();
         let rep = super::conc::exec_conc(&ctx, &run, &mut stats);
         if rep.hung {
-            println!("{}", json!({"violation": null, "hang": run.index}));
+            println!("\n{}", json!({"violation": null, "hang": run.index}));
             std::process::exit(3);
         }
         let _ = std::fs::remove_dir_all(&ctx.scratch);
-        println!("{}", json!({"violation": rep.violation, "hash": format!("{:016x}", rep.hash), "decisions": rep.decisions}));
+        println!("\n{}", json!({"violation": rep.violation, "hash": format!("{:016x}", rep.hash), "decisions": rep.decisions}));
         return if rep.violation.is_some() { 1 } else { 0 };
     }
     let run_v = if v.get("run").is_some() { v["run"].clone() } else { v.clone() };
@@ -559,7 +559,7 @@ pub fn exec_main(args: &[String]) -> i32 {
     beat(u64::MAX);
     let _ = std::fs::remove_dir_all(&ctx.scratch);
     let viol = reports.iter().find_map(|r| r.violation.clone());
-    println!("{}", json!({"violation": viol, "hash": format!("{:016x}", h), "reports": reports}));
+    println!("\n{}", json!({"violation": viol, "hash": format!("{:016x}", h), "reports": reports}));
     if viol.is_some() {
         1
     } else {
